@@ -34,10 +34,12 @@ ASSUMPTIONS = [
 
 DECIDERS = {
     "CONST": ["CONST[X]", "CONST[abc_d]", "CONST[5]", 'CONST["5"]', 'CONST["a b"]', "CONST[1.5]", "CONST[true_north]", "CONST[v1]", "CONST[9007199254740993]",
-              "CONST[-18446744073709551615]", "CONST[0]", "CONST[0.0]", "CONST[false]"],
+              "CONST[-18446744073709551615]", "CONST[0]", "CONST[0.0]", "CONST[false]",
+              'CONST["caf\u00e9"]', 'CONST["\U0001F680"]', 'CONST["\u65e5\u672c"]'],
     "ENUM": ["ENUM[A,B]", "ENUM[ACTIVE,ARCHIVED,DONE]", "ENUM[5,6]", "ENUM[1,10,100]", "ENUM[truecolor,indexed]", 'ENUM["a b",c]', "ENUM[A,AB,ABC]",
              "ENUM[falsey,nullable,vsx]", "ENUM[1.5,1.55]", "ENUM[x.y,a-b]", "ENUM[9223372036854775807,18446744073709551615]",
-             "ENUM[12345678901234567890,12345678901234567891]", "ENUM[0,1]", "ENUM[true,false]"],
+             "ENUM[12345678901234567890,12345678901234567891]", "ENUM[0,1]", "ENUM[true,false]",
+             'ENUM["\U0001F680","\U0001F422"]', 'ENUM["\U0001D518x",ok]', 'ENUM["\u2713","\u00e9\u0301"]'],
     "BOOLEAN": ["TYPE[BOOLEAN]"],
     "NUMBER": ["TYPE[NUMBER]"],
     "DATE": ["DATE"],
